@@ -68,6 +68,27 @@ type Op struct {
 	N int8  `json:"n"`
 	X int8  `json:"x"`
 	Y int8  `json:"y"`
+	// S: how the registration is written (same meaning, different API path):
+	// 0 Before(x).After(y) | 1 After(y).Before(x) | 2 Match(true).Before(x).After(y) | 3 Match(true).After(y).Before(x)
+	S uint8 `json:"s,omitempty"`
+}
+
+const (
+	spBA  = 0
+	spAB  = 1
+	spMBA = 2
+	spMAB = 3
+)
+
+// spellings returns the alternative spellings of a Register-family op.
+func spellings(o Op) []uint8 {
+	if o.K != kRegister {
+		return nil
+	}
+	if o.X >= 0 && o.Y >= 0 {
+		return []uint8{spAB, spMBA, spMAB}
+	}
+	return []uint8{spMBA}
 }
 
 // ROp is the readable (replay file) form of an Op.
@@ -76,10 +97,14 @@ type ROp struct {
 	Name   string `json:"name"`
 	Before string `json:"before,omitempty"`
 	After  string `json:"after,omitempty"`
+	// "" = Before(..).After(..); "after-first"; "match"; "match-after-first"
+	Spelling string `json:"spelling,omitempty"`
 }
 
+var spellingNames = []string{"", "after-first", "match", "match-after-first"}
+
 func (p *pipeCfg) readable(o Op) ROp {
-	return ROp{Op: []string{"register", "replace", "remove"}[o.K], Name: p.name(o.N), Before: p.name(o.X), After: p.name(o.Y)}
+	return ROp{Op: []string{"register", "replace", "remove"}[o.K], Name: p.name(o.N), Before: p.name(o.X), After: p.name(o.Y), Spelling: spellingNames[o.S&3]}
 }
 
 func (p *pipeCfg) parse(r ROp) (Op, error) {
@@ -95,6 +120,11 @@ func (p *pipeCfg) parse(r ROp) (Op, error) {
 		return o, fmt.Errorf("unknown op %q", r.Op)
 	}
 	o.N, o.X, o.Y = p.index(r.Name), p.index(r.Before), p.index(r.After)
+	for i, n := range spellingNames {
+		if n == r.Spelling {
+			o.S = uint8(i)
+		}
+	}
 	if o.N < 0 || o.X == -2 || o.Y == -2 {
 		return o, fmt.Errorf("name outside the alphabet of pipeline %s in %+v", p.Name, r)
 	}
@@ -108,12 +138,20 @@ func (p *pipeCfg) opString(o Op) string {
 	case kRemove:
 		return fmt.Sprintf("Remove(%q)", p.name(o.N))
 	}
-	s := ""
+	s, bx, ay := "", "", ""
+	if o.S >= spMBA {
+		s = "Match(true)."
+	}
 	if o.X >= 0 {
-		s += fmt.Sprintf("Before(%q).", p.name(o.X))
+		bx = fmt.Sprintf("Before(%q).", p.name(o.X))
 	}
 	if o.Y >= 0 {
-		s += fmt.Sprintf("After(%q).", p.name(o.Y))
+		ay = fmt.Sprintf("After(%q).", p.name(o.Y))
+	}
+	if o.S == spAB || o.S == spMAB {
+		s += ay + bx
+	} else {
+		s += bx + ay
 	}
 	return s + fmt.Sprintf("Register(%q)", p.name(o.N))
 }
